@@ -309,6 +309,99 @@ def check_comp(chk, prog, summ, f, slot_comp, nullable):
                proof="self->len is compared with other->len")
 
 
+def copy_cursor_locals(f, result_vars):
+    """locals of f that only ever point at storage of the copy (see check_dup): greatest fixpoint over their assignments"""
+    def rooted(r_, cands):
+        r_ = X.strip(r_)
+        if r_ is None:
+            return False
+        if X.is_null_const(r_) or r_.get("k") == "call":
+            return True
+        if r_.get("k") == "cond":
+            return rooted(r_["ch"][1], cands) and rooted(r_["ch"][2], cands)
+        b_ = r_
+        while b_ is not None and b_.get("k") == "member":
+            b_ = X.strip(b_["ch"][0])
+        return b_ is not None and b_.get("k") == "ref" and (b_.get("d") in result_vars or b_.get("d") in cands)
+    cur = {d_ for d_, v_ in f.vardecls.items() if v_.get("tp")} - set(result_vars)
+    changed = True
+    while changed:
+        changed = False
+        for n_ in walk(f.body):
+            if n_.get("k") == "assign":
+                l_ = X.strip(n_["ch"][0])
+                if l_.get("k") == "ref" and l_.get("d") in cur and not (n_.get("op") == "=" and rooted(n_["ch"][1], cur)):
+                    cur.discard(l_["d"])
+                    changed = True
+            elif n_.get("k") == "decl":
+                for dcl in n_.get("decls", ()):
+                    if dcl["d"] in cur and dcl.get("init") is not None and not rooted(dcl["init"], cur):
+                        cur.discard(dcl["d"])
+                        changed = True
+            elif n_.get("k") == "un" and n_.get("op") == "&":
+                t_ = X.strip(n_["ch"][0])
+                if t_.get("k") == "ref" and t_.get("d") in cur:
+                    cur.discard(t_["d"])
+                    changed = True
+    return cur
+
+
+def helper_fresh_fields(g, j, argmap):
+    """Fields of g's parameter j (the copy) that g leaves holding fresh storage (or NULL) on every path: stored from a call, NULL or a
+    cursor over the copy's own nodes - or left alone only where a parameter that received the original's value of that field
+    (argmap: parameter index -> field) is NULL, in which case the bytewise-copied field is NULL too."""
+    if g.body is None or g.cfg is None or j >= len(g.params):
+        return set()
+    pj = g.params[j]["d"]
+    cursors = copy_cursor_locals(g, {pj})
+    cfg = nullness.prepared_cfg(g, NORETURN)
+    pk = {g.params[k]["d"]: fld for k, fld in argmap.items() if k < len(g.params)}
+
+    def fresh(rhs):
+        s_ = X.strip(rhs)
+        if X.is_null_const(rhs) or (s_ is not None and s_.get("k") == "call"):
+            return True
+        b_ = s_
+        while b_ is not None and b_.get("k") == "member":
+            b_ = X.strip(b_["ch"][0])
+        return b_ is not None and b_.get("k") == "ref" and (b_.get("d") in cursors or (b_.get("d") == pj and s_.get("k") == "member"))
+
+    def transfer(st, n, blk):
+        if n.get("k") == "assign" and n.get("op") == "=":
+            l = X.strip(n["ch"][0])
+            if l.get("k") == "member" and l.get("arrow") and X.strip(l["ch"][0]).get("d") == pj:
+                st = st - {l["n"]}
+                if fresh(n["ch"][1]):
+                    st = st | {l["n"]}
+        return st
+
+    def refine(st, cond, truth, blk):
+        for fact in X.implied(cond, truth):
+            if fact[0] == "null":
+                for d_, fld in pk.items():
+                    if fact[1] == "d%d" % d_:
+                        st = st | {fld}
+        return st
+    exits = []
+
+    def visit(st, n, blk):
+        if n.get("k") == "return":
+            exits.append(st)
+    ins = flow.forward(cfg, frozenset(), transfer, refine=refine, visit=visit)
+    if cfg.exit in ins and not any(x.get("k") == "return" for x in walk(g.body)):
+        exits.append(ins[cfg.exit])
+    elif cfg.exit in ins:
+        # falling off the end of a void helper after explicit early returns
+        last = [b for b in cfg.blocks.values() if cfg.exit in [s_ for s_ in b.succ if s_ is not None]]
+        exits.append(ins[cfg.exit])
+    if not exits:
+        return set()
+    out = set(exits[0])
+    for e in exits[1:]:
+        out &= set(e)
+    return out
+
+
 def check_dup(chk, prog, summ, f, nullable):
     loc = f.loc(f.body)
     rec = classinfo.rec_of_param(f, 0)
@@ -408,6 +501,21 @@ def check_dup(chk, prog, summ, f, nullable):
     def transfer(state, n, blk):
         state = nullness.transfer(state, n, blk)
         k = n.get("k")
+        if k == "call" and prog.fn(X.callee_name(n) or "") is not None and prog.fn(X.callee_name(n)).unit is f.unit:
+            # a unit-local helper that is handed the copy (copy_chain(copy, self->head)): the fields it re-establishes
+            g_ = prog.fn(X.callee_name(n))
+            args_ = n["ch"][1:]
+            for j_, a_ in enumerate(args_):
+                sa_ = X.strip(a_)
+                if sa_ is not None and sa_.get("k") == "ref" and sa_.get("d") in result_vars:
+                    argmap = {}
+                    for k_, b_ in enumerate(args_):
+                        sb_ = X.strip(b_)
+                        if sb_ is not None and sb_.get("k") == "member" and sb_.get("arrow") and X.strip(sb_["ch"][0]).get("d") == self_d:
+                            argmap[k_] = sb_["n"]
+                    got = helper_fresh_fields(g_, j_, argmap)
+                    if got:
+                        return frozenset(state) | frozenset(("fresh", fld) for fld in got if fld in owned)
         if k == "call" and X.callee_name(n) in ("memcpy", "memmove", "__builtin_memcpy"):
             args = n["ch"][1:]
             d = X.strip(args[0])
